@@ -22,7 +22,7 @@
 EXTENDS Spell
 PP == INSTANCE Parse
 
-ALPHASEQ == <<"a", "b", "c", "A", "B", "C", "x", "y", "0", "1", "9", "U", "E", "T", "Q", "N", "D", "S", "R">>
+ALPHASEQ == <<"a", "b", "c", "A", "B", "C", "x", "y", "0", "1", "9", "U", "E", "T", "K", "Q", "N", "D", "S", "R">>
 ALPHA == {ALPHASEQ[j] : j \in 1..Len(ALPHASEQ)}
 SetToAlphaSeq(S) == SelectSeq(ALPHASEQ, LAMBDA t : t \in S)
 
@@ -32,7 +32,7 @@ RECURSIVE Chars(_, _)
 Chars(frs, j) == IF j > Len(frs) THEN <<>> ELSE FragChars(frs[j]) \o Chars(frs, j + 1)
 
 \* parser character -> Text token
-TokOf(c) == CASE c = "@E" -> "E" [] c = "@T" -> "T" [] c = "@Q" -> "Q" [] c = "\n" -> "N" [] c = "-" -> "D" [] c = " " -> "S"
+TokOf(c) == CASE c = "@E" -> "E" [] c = "@T" -> "T" [] c = "@K" -> "K" [] c = "@Q" -> "Q" [] c = "\n" -> "N" [] c = "-" -> "D" [] c = " " -> "S"
               [] c = "_" -> "U" [] c = "\r" -> "R" [] OTHER -> c
 
 (***************************************************************************)
@@ -42,7 +42,7 @@ TokOf(c) == CASE c = "@E" -> "E" [] c = "@T" -> "T" [] c = "@Q" -> "Q" [] c = "\
 (* classes.  Anything else is "opaque" (never produced by Spell).          *)
 (***************************************************************************)
 PerlSet(b) == CASE b = "d" -> {"0", "1", "9"}
-                [] b = "w" -> {"a", "b", "c", "A", "B", "C", "x", "y", "0", "1", "9", "U", "E", "T"}
+                [] b = "w" -> {"a", "b", "c", "A", "B", "C", "x", "y", "0", "1", "9", "U", "E", "T", "K"}
                 [] b = "s" -> {"N", "S", "R"}
 RECURSIVE Members(_, _)
 Members(s, j) ==    \* s = the text between the brackets; "?" marks an unsupported construct
